@@ -732,6 +732,7 @@ mod shimtest {
             let ok_trim = s.find(t).map(|a| { let a_chars = s[..a].chars().all(|c| c.is_whitespace()); let b = &s[a + t.len()..]; a_chars && b.chars().all(|c| c.is_whitespace()) }).unwrap_or(false)
                 && (t.is_empty() || (!t.chars().next().unwrap().is_whitespace() && !t.chars().last().unwrap().is_whitespace()));
             if !ok_trim { h.hit("shims", "shim_trim", "str::trim", s, t); }
+            if ('!'..='~').any(|c| c.is_whitespace()) || !' '.is_whitespace() || !'\t'.is_whitespace() || !'\r'.is_whitespace() || !'\n'.is_whitespace() { h.hit("shims", "shim_is_ws", "char::is_whitespace", "", "printable ASCII"); }
             if s.parse::<u64>().ok().map(|x| x as u128) != parses_unsigned(s, u64::MAX as u128) { h.hit("shims", "shim_parse_u64", "str::parse::<u64>", s, ""); }
             if s.parse::<usize>().ok().map(|x| x as u128) != parses_unsigned(s, usize::MAX as u128) { h.hit("shims", "shim_parse_usize", "str::parse::<usize>", s, ""); }
             if s.parse::<i64>().ok().map(|x| x as i128) != parses_signed(s, i64::MIN as i128, i64::MAX as i128) { h.hit("shims", "shim_parse_i64", "str::parse::<i64>", s, ""); }
